@@ -90,17 +90,40 @@ class PermutationAwareSynthesisPass(SynthesisPass):
             for p in perms
         ]
 
+        def permute(
+            Pi: PermutationMatrix | None,
+            Po: PermutationMatrix | None,
+        ) -> UnitaryMatrix | StateVector | StateSystem:
+            """Target of a circuit C with utry = Po @ C @ Pi.T."""
+            if isinstance(utry, UnitaryMatrix):
+                target = utry if Po is None else Po.T @ utry
+                return target if Pi is None else target @ Pi
+
+            def move(
+                P: PermutationMatrix | None,
+                vec: StateVector,
+            ) -> StateVector:
+                if P is None:
+                    return vec
+                return StateVector(P.numpy.T @ vec.numpy, vec.radixes)
+
+            if isinstance(utry, StateVector):
+                # The all zero starting state is fixed by every Pi
+                return move(Po, utry)
+
+            return StateSystem({move(Pi, k): move(Po, utry[k]) for k in utry})
+
         if self.input_perm and self.output_perm:
             permsbyperms = list(it.product(perms, perms))
-            targets = [Po.T @ utry @ Pi for Pi, Po in it.product(Pis, Pos)]
+            targets = [permute(Pi, Po) for Pi, Po in it.product(Pis, Pos)]
 
         elif self.input_perm:
             permsbyperms = list(it.product(perms, no_perm))
-            targets = [utry @ Pi for Pi in Pis]
+            targets = [permute(Pi, None) for Pi in Pis]
 
         elif self.output_perm:
             permsbyperms = list(it.product(no_perm, perms))
-            targets = [Po.T @ utry for Po in Pos]
+            targets = [permute(None, Po) for Po in Pos]
 
         else:
             _logger.warning('No permutation is being used in PAS.')
